@@ -4,7 +4,7 @@
 EXTENDS Bloc, Json
 
 X3   == {"T", "F", "N"}
-Prov == {"const", "ctor", "var", "uvar", "func", "ufunc", "elem"}
+Prov == {"const", "ctor", "var", "uvar", "func", "ufunc", "elem", "conv", "convvar"}
 BinOpsG == {"and", "or", "xor", "==", "!=", "<", "<=", ">", ">="}
 
 ConstOf(x) == IF x = "T" THEN B(TRUE) ELSE IF x = "F" THEN B(FALSE) ELSE NullC
@@ -18,6 +18,9 @@ Operand(x, p, sfx) ==
     [] p = "uvar"  -> [pre |-> <<Let("P" \o sfx, ConstOf(x))>>, e |-> V("P" \o sfx)]
     [] p = "func"  -> [pre |-> <<Func("F" \o sfx, <<>>, <<Return(CtorOf(x))>>)>>, e |-> UCall("F" \o sfx, <<>>)]
     [] p = "ufunc" -> [pre |-> <<Func("F" \o sfx, <<>>, <<Return(ConstOf(x))>>)>>, e |-> UCall("F" \o sfx, <<>>)]
+    \* the converter bool(x) applied to a constant / to a variable (which must stay what it was)
+    [] p = "conv"  -> [pre |-> <<>>, e |-> Call("bool", <<IF x = "T" THEN I(1) ELSE IF x = "F" THEN I(0) ELSE NullC>>)]
+    [] p = "convvar" -> [pre |-> <<Let("Q" \o sfx, IF x = "T" THEN I(1) ELSE IF x = "F" THEN I(0) ELSE NullC)>>, e |-> Call("bool", <<V("Q" \o sfx)>>)]
     [] p = "elem"  -> [pre |-> <<Let("T" \o sfx, Call("tab", <<I(1), CtorOf(x)>>))>>, e |-> Mem(V("T" \o sfx), "at", <<I(0)>>)]
 
 Body(e) ==
